@@ -5,7 +5,7 @@
     the only code that pops or peeks) and the trace items they emitted.  Batching the
     requests of one hook call is faithful because no handler ever reads the queue and the
     clock does not move while a callback runs. *)
-From Coq Require Import List Arith Bool.
+From Coq Require Import List Arith NArith Bool.
 Import ListNotations.
 From GS Require Import Num EventLoop.
 
@@ -27,9 +27,9 @@ Record hooks : Type := mkHooks {
 
 Inductive kitem : Type :=
 | KUser (t : T)
-| KExec (iter : nat) (ts : F) (p : P)      (* event popped and executed as iteration [iter] *)
+| KExec (iter : nat) (ts : F) (seq : N) (p : P)   (* event popped and executed as iteration [iter] *)
 | KRefused (ts : F) (p : P)                (* a hook's scheduling request was refused *)
-| KSched (ts : F) (p : P).                 (* a hook's scheduling request was accepted (ghost:
+| KSched (ts : F) (seq : N) (p : P).       (* a hook's scheduling request was accepted (ghost:
                                               lets theorems speak about "every accepted request") *)
 
 Record kstate : Type := mkK {
@@ -46,7 +46,7 @@ Fixpoint sched_all (l : eloop F P) (reqs : list (F * P)) : eloop F P * list kite
   | [] => (l, [])
   | (ts, p) :: r =>
       match el_schedule A l ts p with
-      | Some l' => let '(l2, items) := sched_all l' r in (l2, KSched ts p :: items)
+      | Some l' => let '(l2, items) := sched_all l' r in (l2, KSched ts (el_seq l) p :: items)
       | None => let '(l2, items) := sched_all l r in (l2, KRefused ts p :: items)
       end
   end.
@@ -92,7 +92,7 @@ Definition k_step (hk : hooks) (c : kcfg) (s : kstate) : kstate * list kitem * b
           let '(h2, reqs, items) := hk_exec hk (k_h s1) (ev_ts e) (ev_pl e) in
           let '(l2, ref) := sched_all l1 reqs in
           let '(h3, aitems, raised) := hk_after hk h2 (k_iter s1) (ev_ts e) in
-          let body := KExec (k_iter s1) (ev_ts e) (ev_pl e) :: map KUser items ++ ref ++ map KUser aitems in
+          let body := KExec (k_iter s1) (ev_ts e) (ev_seq e) (ev_pl e) :: map KUser items ++ ref ++ map KUser aitems in
           if raised then
             (mkK l2 h3 (k_iter s1) true false true, i1 ++ body, false)
           else
